@@ -266,7 +266,7 @@ func c11R3(p *core.Prog, r *core.Report) {
 	}
 	core.Calls(att, func(c ssa.CallInstruction) {
 		if g := core.CalleeFn(c); g != nil {
-			switch g.Name() {
+			switch canon(g) {
 			case "getAuth":
 				authHost = hostOf(core.CallArg(c, 0))
 			case "getHTTPClient":
